@@ -1,4 +1,5 @@
 """Matching logical objects"""
+import operator as operator_functions
 import warnings
 from abc import ABCMeta, abstractmethod
 from collections import namedtuple
@@ -176,7 +177,7 @@ class Comparison(MatchCriteria):
         if self.referenced_parameter in packet:
             if self.use_calibrated_value:
                 parsed_value = packet[self.referenced_parameter]
-                if not parsed_value:
+                if parsed_value is None:
                     raise ComparisonError(f"Comparison {self} was instructed to useCalibratedValue (the default)"
                                           f"but {self.referenced_parameter} does not appear to have a derived value.")
             else:
@@ -418,8 +419,9 @@ class Condition(MatchCriteria):
         if left_value is None or right_value is None:
             raise ComparisonError(f"Error comparing {left_value} and {right_value}. Neither should be None.")
 
-        # x.__le__(y) style call
-        return getattr(left_value, operator)(right_value)
+        # operator.__le__(x, y) style call. Calling the dunder method on the left operand directly returns
+        # NotImplemented (which is truthy) for mixed operand types, e.g. an int compared to a float.
+        return getattr(operator_functions, operator)(left_value, right_value)
 
 
 class Anded(namedtuple('Anded', ['conditions', 'ors'])):
